@@ -96,6 +96,16 @@ def case_st(draw):
             n = draw(st.sampled_from([buf, buf + 1, buf + 2, buf + 7, 2 * buf + 3, 5000]))
             fill = draw(st.sampled_from([0x55, 0x00, 0x7D, 0x7E, 0x20, 0x5E]))
             ops.append(("overlong", draw(st.sampled_from(dlcis)), n, fill))
+            if draw(st.integers(0, 2)) == 0:
+                # recovery must restore the initial state exactly: a second frame just beyond the limit (optionally after an ordinary
+                # one) must be dropped like the first
+                first = ops.pop()
+                if draw(st.booleans()):
+                    ops.append(("D",))                 # nothing waiting in the transmitter: no frame is delivered between the two
+                ops.append(first)
+                if draw(st.integers(0, 3)) == 0:
+                    ops.append(("S", draw(st.sampled_from(dlcis)), b"between"))
+                ops.append(("overlong", draw(st.sampled_from(dlcis)), buf + draw(st.integers(0, 5)), draw(st.sampled_from([0x55, 0x20, 0x00]))))
             if draw(st.booleans()):
                 # directly followed by a maximum-size frame, preferably on a DLCI whose address octet needs escaping
                 d = draw(st.sampled_from([x for x in dlcis if x in (0, 125)] or dlcis))
@@ -141,6 +151,9 @@ def oracle(case):
             plan.append(("pull",))
         elif o[0] == "F":
             toks.append("F")
+            plan.append(("pull",))
+        elif o[0] == "D":
+            toks.append("D")
             plan.append(("pull",))
         elif o[0] == "noise":
             toks.append("F")
